@@ -1,4 +1,47 @@
-(* placeholder so that the pipeline can be exercised; replaced by the real theorems *)
-From SV Require Import Names Rep.
-Theorem C20_placeholder : True. Proof. exact I. Qed.
-Print Assumptions C20_placeholder.
+(* C20 -- an embedding returns assigned positions and behaves as a dict over the points.
+   Theorem statements only; proofs in EmbProofs.v / Floats.v. *)
+From Coq Require Import String ZArith Bool Arith List.
+From SV Require Import Names NamesFacts Rep Complex Homology Filtration Gen World EmbProofs Floats.
+Import ListNotations.
+
+Theorem C20_assign_read :
+  forall e s p e', emb_positionSimplex e s p = Ok e' -> emb_read (Ok 0%nat) e' s = (e', Ok p).
+Proof. exact assign_then_read. Qed.
+Print Assumptions C20_assign_read.
+
+(* an assigned position takes precedence over the computed one and is what every later read
+   returns, after any sequence of reads of any simplices *)
+Theorem C20_precedence :
+  forall e s p e' ord ss, emb_positionSimplex e s p = Ok e' -> ord s = Ok 0 ->
+  emb_read (ord s) (reads ord e' ss) s = (reads ord e' ss, Ok p).
+Proof. exact precedence. Qed.
+Print Assumptions C20_precedence.
+
+Theorem C20_cleared : forall e s, assoc s (e_pos (emb_clear e)) = None.
+Proof. exact clear_forgets. Qed.
+Print Assumptions C20_cleared.
+
+Theorem C20_computed_once :
+  forall e s,
+  let '(e1, p1) := emb_read (Ok 0%nat) e s in
+  let '(e2, p2) := emb_read (Ok 0%nat) e1 s in
+  p2 = p1 /\ e2 = e1 /\ (assoc s (e_pos e) = None -> e_calls e1 = e_calls e ++ [s]) /\
+  (assoc s (e_pos e) <> None -> e_calls e1 = e_calls e).
+Proof. exact computed_once. Qed.
+Print Assumptions C20_computed_once.
+
+Theorem C20_wrong_dimension :
+  forall e s p, length p <> e_dim e -> emb_positionSimplex e s p = Raise ValueError.
+Proof. exact positionSimplex_wrong_dim. Qed.
+Print Assumptions C20_wrong_dimension.
+
+Theorem C20_higher_order : forall e s k, emb_read (Ok (S k)) e s = (e, Raise ValueError).
+Proof. exact read_higher_order. Qed.
+Print Assumptions C20_higher_order.
+
+(* lattice embeddings up to 6 x 6 in the boxes 1x1, 2x3, 0.5x4, 3.25x1.5: distinct lattice points
+   at distinct positions inside the box (binary64 arithmetic evaluated by the kernel) *)
+Theorem C20_lattice_range :
+  forallb (fun rc => forallb (fun hw => lattice_ok (fst rc) (snd rc) (fst hw) (snd hw)) boxes) sizes = true.
+Proof. exact lattice_range_ok. Qed.
+Print Assumptions C20_lattice_range.
